@@ -52,7 +52,9 @@ MANIFEST = {
             'changes.  The codec family round-trips states of every compressed length '
             '8..300 bytes.  Shapes of <= 5/6 nodes are also explored with '
             'the assume_children option (a childless node carries an expand '
-            'link until it has been expanded).',
+            'link until it has been expanded), with reverse, with numeric '
+            'and false ids (0, empty string), and with the single option '
+            '(no cookie: the clicked link alone determines what is open).',
     'note': 'Trusted: the 40-line set model and the HTML row/link parser in '
             'this driver; zlib/json of the standard library to measure the '
             'compressed length of generated states.',
@@ -323,7 +325,11 @@ def judge_state(res, ctx, E, out, cookie, via):
     except Exception as e:
         st = 'EXC %r' % (e,)
     got = state_ids(st, root_id) if isinstance(st, list) else st
-    if got != E:
+    if ctx.get('opt') == 'single':
+        if cookie is not None:
+            res.violate('cookie', 'cookie-written-with-single:%s' % tag,
+                        {'history': via}, sub)
+    elif got != E:
         res.violate('cookie', 'cookie:%s' % tag,
                     {'expanded': sorted(E, key=repr), 'cookie_decodes_to':
                      sorted(got, key=repr) if isinstance(got, set) else got,
@@ -338,6 +344,12 @@ def step_model(E, ev, ctx):
                          if ctx['children'][v] and v != ctx['root_id'])
     if kind == 'collapse_all':
         return frozenset()
+    if ctx.get('opt') == 'single':
+        # no state is kept between requests: the link alone says what is
+        # open - the nodes on its path (the page that carried the link
+        # showed them open), without the node itself for a collapse link
+        path = {tuple(ident[:i]) for i in range(2, len(ident) + 1)}
+        return frozenset(path if kind == 'e' else path - {ident})
     if kind == 'e':
         return frozenset(E | {ident})
     return frozenset(E - {ident} - descendants(ident, ctx['children']))
@@ -653,6 +665,10 @@ def cases(tier):
             # lists the nodes hand out stay as they are)
             yield {'fam': 'click', 'shape': sh, 'ids': 'short',
                    'literal': 3, 'opt': 'reverse'}
+        if nodes <= 6:
+            # option single: no cookie, the state travels in the links
+            yield {'fam': 'click', 'shape': sh, 'ids': 'short',
+                   'literal': 3, 'opt': 'single'}
         if nodes <= (5 if tier == 'quick' else 6):
             # option assume_children: every node carries a link; expanding
             # a childless node only records it in the state
